@@ -71,21 +71,30 @@ def run_pair(job):
                                extra=None)
         env = None
         fv = None
+        nofetch = ["--no-fetch"]
         if use_vcs:
             fv = fakevcs.FakeVCS(os.path.join(d, "fake"))
             fv.set(tags=[], status="", remote="", branches="")
             env = fv.env()
+            if seed % 2 == 0 and not legacy:
+                # a remote that holds a newer version tag which has not been fetched yet (someone released from another clone); fetching is on:
+                # the dry run and the real run - same arguments - must start from the same version
+                rt = drive.cli(["test", lay.old_version, lay.vp] + lay.flags)
+                if rt.exit == 0 and rt.new_version():
+                    fv.set(tags=[], tags_remote=[rt.new_version()], status="", remote="", branches="* main 1234abc [origin/main] msg\n")
+                    nofetch = []
         before = proj.snapshot(with_mtime=True)
-        r1 = drive.cli(["update", "--dry", "--no-fetch"] + lay.flags, cwd=proj.root, env=env)
+        r1 = drive.cli(["update", "--dry"] + nofetch + lay.flags, cwd=proj.root, env=env)
         mid = proj.snapshot(with_mtime=True)
         dry_log = fv.log() if fv else []
-        r2 = drive.cli(["update", "--no-fetch"] + lay.flags, cwd=proj.root, env=env)
+        r2 = drive.cli(["update"] + nofetch + lay.flags, cwd=proj.root, env=env)
         after = proj.snapshot()
     paths = set(lay.files) | {"bumpver.toml"}
     hunks = parse_diff(r1.stdout, paths) if r1.exit == 0 else {}
     evs = []
     facts = dict(seed=seed, vp=lay.vp, dry_exit=r1.exit, real_exit=r2.exit, dry_changed=[k for k in before if before[k] != mid.get(k)] + sorted(set(mid) - set(before)),
-                 dry_mutating=[e[1] for e in dry_log if e[0] == "cmd" and e[1] in ("add_path", "commit", "tag", "tag_light", "push", "push_tag", "fetch")],
+                 dry_mutating=[e[1] for e in dry_log if e[0] == "cmd" and e[1] in ("add_path", "commit", "tag", "tag_light", "push", "push_tag")],
+                 fetching=not nofetch,
                  dry_hooks=[e for e in dry_log if e[0] == "hook"], unparsable=hunks is None, flags=lay.flags, legacy=bool(legacy), exc=[x for x in (r1.exc, r2.exc) if x],
                  dry_new=r1.new_version(), real_new=r2.new_version(), stdout=r1.stdout[:400] if hunks is None else "")
     if r1.exit == 0 and hunks is not None:
